@@ -47,10 +47,11 @@ type session struct {
 	blocks  []blockRec // blocks processed successfully or attempted, in order (cause analysis)
 	retry   bool       // a `fault retry` happened: memory/database divergence is measured, not judged
 	okCnt   int
-	faulted bool             // a crash / error fault fired in this session
-	vaSeen  map[int][]string // validator id -> "owner|op/key,op/key,…" of every ValidatorAdded delivered so far
-	base    map[int]int      // owner -> nonce expected next when the case started / the recipient was seeded
-	adds    map[int]int      // owner -> parsed ValidatorAdded events processed since then
+	faulted bool                // a crash / error fault fired in this session
+	vaSeen  map[int][]string    // validator id -> "owner|op/key,op/key,…" of every ValidatorAdded delivered so far
+	traces  map[uint64][]string // block number -> real write trace of the successfully processed block
+	base    map[int]int         // owner -> nonce expected next when the case started / the recipient was seeded
+	adds    map[int]int         // owner -> parsed ValidatorAdded events processed since then
 }
 
 func (s *session) out(op, obs string) {
@@ -69,7 +70,7 @@ func openDisk(dir string) basedb.Database {
 }
 
 func newSession(run *hx.Run, emit bool, disk bool, extra string) *session {
-	s := &session{run: run, emit: emit, base: map[int]int{}, adds: map[int]int{}, vaSeen: map[int][]string{}}
+	s := &session{run: run, emit: emit, base: map[int]int{}, adds: map[int]int{}, vaSeen: map[int][]string{}, traces: map[uint64][]string{}}
 	if disk {
 		d, err := os.MkdirTemp("", "verif-registry-")
 		must(err)
@@ -236,6 +237,7 @@ func (s *session) block(num uint64, evs []*event) blockResult {
 	mv, dbv := memView(s.p), dbView(s.raw)
 	s.out(op, fmt.Sprintf("%s out=%s tasks=%s trace=%s mem=%s db=%s", st, res.out, res.tasks, res.trace, mv, dbv))
 	if st == "ok" {
+		s.traces[num] = append([]string{}, s.p.ctl.trace...)
 		s.okCnt++
 		s.checkMemDBViews(fmt.Sprintf("after block %d", num), mv, dbv)
 		for _, e := range evs {
@@ -274,6 +276,14 @@ func (s *session) fault(kind string, atReal, atModel, kmAt int, num uint64, evs 
 	status := map[string]string{"ok": "completed", "failed": "faulted", "crashed": "faulted", "refused": "refused", "panic": "panic"}[res.status]
 	if fired && kind != "retry" {
 		s.reboot()
+	}
+	if !fired && res.status == "ok" { // the fault index lies beyond the block's writes: an ordinary processed block
+		for _, e := range evs {
+			if e.Kind == "VA" {
+				s.adds[e.Owner]++
+				s.vaSeen[e.Val] = append(s.vaSeen[e.Val], pairing(e))
+			}
+		}
 	}
 	if kind == "retry" {
 		s.retry = true
@@ -420,7 +430,7 @@ func (s *session) checkAdds(num uint64, evs []*event, pre addPre) {
 
 // oracle "the nonce counts every add attempt exactly once" (mod 2^16), evaluated on the stored recipients
 func (s *session) checkNonces(when, dbv string) {
-	if s.retry || s.faulted { // after a fault the C12 oracle (final state = uninterrupted run) judges, nonces included
+	if s.retry || (s.faulted && !modeC11) { // in C12 mode the final-state oracle judges the nonces as well
 		return
 	}
 	i := strings.Index(dbv, "]R[")
@@ -627,8 +637,76 @@ func caseC11(run *hx.Run, r *hx.Rng, caseNo int) {
 		}
 		run.Seen(fmt.Sprintf("pair:%d:%d", sa.okCnt, sb.okCnt))
 	}
+	// (duplicate operator ids inside one block / operator id 0 already make a plain restart change the own operator
+	// id — the known findings reported by the memory-vs-database oracle; the fault stratum stays away from them)
+	if !pa && !pb && !hasNT(items) && !cfg.adversarial && !sa.dupOpInOneBlock() && r.Chance(40) {
+		c11FaultCase(run, r, planA, sa)
+	}
 	sa.close()
 	sb.close()
+}
+
+// regObs: registry part of the final observation (memory + database: shares, operators, recipients with nonces,
+// marker, decided history, own id); the wallet is C12's subject
+func regObs(s *session) string { return stripAccounts(c12Obs(s)) }
+
+// c11FaultCase: the same batching once more with ONE crash or failing storage write at a write the fault-free run
+// made while processing some block (any write: transactional, direct with a nil transaction, before or after the
+// commit), a restart on the surviving database and re-delivery from the stored marker+1. The registry must still be
+// the function of the event log: every add attempt counted once, final registry = fault-free run.
+func c11FaultCase(run *hx.Run, r *hx.Rng, plan []planStep, ref *session) {
+	var blks []int
+	bi := -1
+	for _, st := range plan {
+		if st.blk {
+			bi++
+			if len(ref.traces[st.num]) > 0 {
+				blks = append(blks, bi)
+			}
+		}
+	}
+	if len(blks) == 0 {
+		return
+	}
+	target := blks[r.Intn(len(blks))]
+	var tr []string
+	bi = -1
+	for _, st := range plan {
+		if st.blk {
+			bi++
+			if bi == target {
+				tr = ref.traces[st.num]
+			}
+		}
+	}
+	w := r.Intn(len(tr))
+	if r.Chance(45) { // the last writes of a block: marker, commit, whatever comes after the commit
+		w = len(tr) - 1 - r.Intn(hx.Min(3, len(tr)))
+	}
+	if tr[w] == "wal" { // the position between account record and wallet index is C12's known finding
+		prev := ""
+		for i := w - 1; i >= 0; i-- {
+			if !unmodelled[tr[i]] {
+				prev = tr[i]
+				break
+			}
+		}
+		if prev == "acc" {
+			return
+		}
+	}
+	kind := pick2(r, "crash", "error")
+	want := regObs(ref)
+	s, fired := runWithFault(run, plan, faultSpec{target, kind, w, -1}, false, true, "")
+	if fired {
+		s.reboot()
+		run.Tag("c11:fault-run:" + kind + ":" + tr[w])
+		run.Seen("c11fault:" + kind + ":" + tr[w])
+		if got := regObs(s); got != want {
+			run.Violate("C11/registry-after-fault-and-restart-differs-from-event-log", fmt.Sprintf("%s at write %d (%s) of block #%d, restart, re-delivery from marker+1: %s ; fault-free run: %s", kind, w, tr[w], target, got, want), s.lines...)
+		}
+	}
+	s.close()
 }
 
 // ---------------------------------------------------------------------------------------------- C12
@@ -982,7 +1060,11 @@ func replay(run *hx.Run, lines []string) {
 			ref.reboot()
 			want := c12Obs(ref)
 			ref.close()
-			if got != want {
+			if modeC11 {
+				if stripAccounts(got) != stripAccounts(want) && !s.dupOpInOneBlock() && !strings.Contains(got, "O[0:1:") {
+					run.Violate("C11/registry-after-fault-and-restart-differs-from-event-log", fmt.Sprintf("%s: final %s ; fault-free run %s", faultLine, stripAccounts(got), stripAccounts(want)), s.lines...)
+				}
+			} else if got != want {
 				sig := "C12/resume-differs-from-uninterrupted-run"
 				if lastFault.hit == "wal" && lastFault.prev == "acc" && accountsOf(got) != accountsOf(want) && stripAccounts(got) == stripAccounts(want) {
 					sig = "C12/duplicate-account-record-after-fault-between-account-record-and-wallet-index"
@@ -1060,6 +1142,10 @@ func (s *session) blockLenient(num uint64, evs []*event) {
 
 var diskRuns int
 
+// modeC11: the harness judges property C11 (registry = function of the event log): after a fault + restart the nonce
+// oracle stays on and the registry (not the wallet, which is C12's subject) is compared with the fault-free run.
+var modeC11 = true
+
 type faultInfo struct{ hit, prev string }
 
 var lastFault faultInfo
@@ -1080,6 +1166,7 @@ func main() {
 		rsaCachePath = filepath.Join(filepath.Dir(f.Value.String()), "registry_rsa_keys.cache")
 	}
 	setupMaterial(r)
+	modeC11 = *mode != "c12"
 	if lines := run.ReplayLines(); lines != nil {
 		replay(run, lines)
 		return
